@@ -24,7 +24,7 @@ RAW_PARAM_VALUES = ["v", "{A}", "{NOPE}", "a{b", "}", "\\{A\\}", "5", "{'x': 1}"
 
 
 def literal(x: str) -> str:
-    """what labrea.template._literal builds (re-stated here; the real function is cross-checked in validate())"""
+    """the escaped form (theory.literal); that labrea.template._literal builds exactly this is NOT assumed here: the executor runs the real body"""
     return x.replace("{", "\\{").replace("}", "\\}")
 
 
@@ -83,8 +83,6 @@ def validate(full=False, quick=False):
             x = "".join(combo)
             n += 1
             lx = literal(x)
-            if hasattr(tmod, "_literal") and tmod._literal(x) != lx:
-                fails.append(("labrea.template._literal is the double replace", x))
             if find_template_keys(lx):
                 fails.append(("an escaped string has no template keys", x, lx))
                 continue
